@@ -57,6 +57,10 @@ class TapeRandom:
             return 2**k - 1
         return int(x * (2**k - 1))
 
+    def __getattr__(self, name):
+        # anything else the library may come to use (choice, randrange, randbytes, ...) is served by the real module
+        return getattr(_random, name)
+
     def choices(self, population, k=1):
         out = []
         for _ in range(k):
@@ -117,12 +121,32 @@ class C20(Check):
 
     def _sanitize(self, ir, table):
         """Defaults drawn for the undecorated types may lie outside a logical type's domain (int 2147483647 as a
-        date): drop all defaults.  A uuid string next to an enum in one union is known finding F-UUID-UNCHECKED."""
+        date): the defaults of fields whose type carries a logical annotation are dropped.  A uuid string next to an enum in one union is known finding F-UUID-UNCHECKED."""
+        def has_logical(node, seen):
+            if "logical" in node:
+                return True
+            k = node["k"]
+            if k == "ref":
+                if node["name"] in seen or node["name"] not in table:
+                    return False
+                seen.add(node["name"])
+                return has_logical(table[node["name"]], seen)
+            if k == "record":
+                return any(has_logical(f["type"], seen) for f in node["fields"])
+            if k == "array":
+                return has_logical(node["items"], seen)
+            if k == "map":
+                return has_logical(node["values"], seen)
+            if k == "union":
+                return any(has_logical(b, seen) for b in node["branches"])
+            return False
+
         def visit(node):
             k = node["k"]
             if k == "record":
                 for f in node["fields"]:
-                    f.pop("default", None)
+                    if has_logical(f["type"], set()):
+                        f.pop("default", None)
                     visit(f["type"])
             elif k == "array":
                 visit(node["items"])
@@ -135,9 +159,6 @@ class C20(Check):
                         del b["logical"]
                     visit(b)
         visit(ir)
-        for d in table.values():
-            if d["k"] == "enum":
-                d.pop("default", None)
 
     def _uuid_next_to_enum(self, node, table, seen=None):
         seen = seen if seen is not None else set()
